@@ -32,6 +32,7 @@ func (fc *FnCtx) errDecls() {
 		smt.Implies(smt.And(smt.Neq(e, smt.IntLit(0)), smt.Eq(fc.dtype(e), tyErr)), smt.Eq(as, e)),
 		smt.Implies(smt.Neq(as, smt.IntLit(0)), smt.And(smt.Eq(fc.dtype(as), tyErr), smt.Neq(e, smt.IntLit(0)))),
 	), []*smt.Term{as}), "errors.As finds a *Error: e itself if it is one")
+	fc.S.Assert(smt.Forall([]*smt.Term{e}, smt.Implies(smt.Ge(e, smt.IntLit(0)), smt.Ge(as, smt.IntLit(0))), []*smt.Term{as}), "an error that existed at entry wraps only objects that existed at entry")
 	// sentinels are plain errors: they match only themselves and wrap nothing
 	for _, name := range smt.SortedKeys(fc.P.Sentinel) {
 		if fc.P.SentinelKind[name] != "plain" {
